@@ -18,6 +18,7 @@ def oracle(dp, cmds, steps, upto):
     bounds = {}
     rel = False
     before = initial_snapshot()
+    transformed = False
     for i, (c, s) in enumerate(zip(cmds, steps)):
         if c[0] == "set_bounds" and s["exc"] is None:
             if c[1] == "axes":
@@ -68,6 +69,16 @@ def oracle(dp, cmds, steps, upto):
                         fails.append((i, "%r emitted %r: target %s=%s outside the axes box [%s, %s]"
                                       % (cmd_json(c), raw, a, float(tgt[k]), float(lo[k]), float(hi[k])), "word:axes"))
                 cur = tgt
+        # an accepted move ends inside the box: the tracked position itself (exact, not only its rounded word) -- C03_target_*
+        if s["exc"] is None and s["raw"] and c[0] in ("move", "move_abs") and "axes" in bounds and not transformed:
+            lo, hi = bounds["axes"]
+            for k, a in enumerate("xyz"):
+                v = s["snap"]["pos"][k]
+                if c[2].get(a) is not None and isinstance(v, Fraction) and not (lo[k] <= v <= hi[k]):
+                    fails.append((i, "%r was accepted and moved %s to %s (%.3g past the limit), outside the axes box [%s, %s]"
+                                  % (cmd_json(c), a.upper(), float(v), float(max(v - hi[k], lo[k] - v)), float(lo[k]), float(hi[k])), "target:axes"))
+        if c[0] == "set_transform":
+            transformed = True
         # NaN never passes a bound
         if s["exc"] is None and s["raw"]:
             vals = []
